@@ -1,5 +1,5 @@
 #!/bin/bash
-# selftest.sh [-seeded] [-refactorings] [-only] : self-test of the checker (NOT a property check).
+# selftest.sh [-seeded] [-refactorings] [-only] [-touching=<file regex>] : self-test of the checker (NOT a property check).
 # Applies every patch of /verif/mutants (with -seeded also /verif/seeded/*/patch.diff, with -refactorings also
 # /verif/refactorings/*/patch.diff; -only skips the mutants) to a scratch copy of /repo under /tmp (removed
 # afterwards), JOBS at a time (default 6), and compares the checks' verdicts with the expectations:
@@ -35,8 +35,8 @@ one() { # kind name patch expected...
 }
 export -f run one
 jobs_file=$(mktemp /tmp/sigself-jobs-XXXX)
-mut=1; seeded=0; refac=0
-for a in "$@"; do case $a in -seeded) seeded=1;; -refactorings) refac=1;; -only) mut=0;; esac; done
+mut=1; seeded=0; refac=0; touching=""
+for a in "$@"; do case $a in -seeded) seeded=1;; -refactorings) refac=1;; -only) mut=0;; -touching=*) touching=${a#-touching=};; esac; done
 if [ $mut = 1 ]; then
   python3 - >> $jobs_file <<'PY'
 import json,glob,os
@@ -56,6 +56,10 @@ PY
 fi
 if [ $refac = 1 ]; then
   for s in /verif/refactorings/*/; do echo "benign $(basename $s) ${s}patch.diff"; done >> $jobs_file
+fi
+if [ -n "$touching" ]; then # only the patches that touch files matching the regular expression
+  awk '{print $3}' $jobs_file | xargs grep -l -E "^\+\+\+ .*($touching)" > $jobs_file.sel
+  grep -F -f $jobs_file.sel $jobs_file > $jobs_file.f; mv $jobs_file.f $jobs_file; rm -f $jobs_file.sel
 fi
 out=$(xargs -P ${JOBS:-6} -L 1 bash -c 'one "$@"' _ < $jobs_file | sort -k2)
 rm -f $jobs_file
